@@ -95,6 +95,18 @@ mod inner {
 #[cfg(unix)]
 mod tz_info;
 
+#[cfg(all(unix, feature = "verif-hooks"))]
+#[allow(unreachable_pub)]
+pub(crate) mod verif_seam;
+
+/// Verification seams and accessors (feature `verif-hooks`); not part of the public API.
+#[cfg(all(unix, feature = "verif-hooks"))]
+#[doc(hidden)]
+pub mod __verif {
+    pub use super::tz_info::verif::{TypeView, Zone};
+    pub use super::verif_seam::{World, install};
+}
+
 /// The local timescale.
 ///
 /// Using the [`TimeZone`](./trait.TimeZone.html) methods
